@@ -79,9 +79,14 @@ func (rc *recorder) tick() int {
 }
 
 // allRoutes registers h for every operation kind (and the unbind route when withUnbind).
+var allRoutesCalls int64
+
 func allRoutes(h gldap.HandlerFunc, tlsH gldap.HandlerFunc, unbindH gldap.HandlerFunc) *gldap.Mux {
 	mux, _ := gldap.NewMux()
-	if tlsH != nil {
+	// every second table registers the StartTLS route LAST, behind the other extended operations: where a route
+	// stands in the table has nothing to do with how its request is dispatched
+	tlsLast := atomic.AddInt64(&allRoutesCalls, 1)%2 == 0
+	if tlsH != nil && !tlsLast {
 		_ = mux.ExtendedOperation(tlsH, gldap.ExtendedOperationStartTLS)
 	}
 	_ = mux.Bind(h)
@@ -90,6 +95,10 @@ func allRoutes(h gldap.HandlerFunc, tlsH gldap.HandlerFunc, unbindH gldap.Handle
 	_ = mux.Add(h)
 	_ = mux.Delete(h)
 	_ = mux.ExtendedOperation(h, gldap.ExtendedOperationWhoAmI)
+	if tlsH != nil && tlsLast {
+		_ = mux.ExtendedOperation(h, gldap.ExtendedOperationName("1.3.6.1.4.1.4203.1.11.1"))
+		_ = mux.ExtendedOperation(tlsH, gldap.ExtendedOperationStartTLS)
+	}
 	if unbindH != nil {
 		_ = mux.Unbind(unbindH)
 	}
@@ -457,8 +466,12 @@ func (c10Stream) Generate(rng *rand.Rand, n int, thorough bool) []Case {
 			// a long pipeline of requests whose handlers are all still blocked when the Unbind is read
 			pre, block = 100+rng.Intn(200), 1
 		}
-		cs = append(cs, Case{Line: fmt.Sprintf("c10 pre=%d post=%d route=%d block=%d mode=%s seed=%d hold=%d upanic=%d", pre, rng.Intn(9), route, block,
-			[]string{"plain", "plain", "tls", "starttls"}[rng.Intn(4)], rng.Intn(1<<30), hold, upanic), Kind: "unbind"})
+		uhold, uctl := 0, rng.Intn(4)/3
+		if route == 1 && upanic == 0 && rng.Intn(12) == 0 {
+			uhold = 2600 // an unbind handler that takes its time: the connection is closed when it has returned, not before
+		}
+		cs = append(cs, Case{Line: fmt.Sprintf("c10 pre=%d post=%d route=%d block=%d mode=%s seed=%d hold=%d upanic=%d uhold=%d uctl=%d", pre, rng.Intn(9), route, block,
+			[]string{"plain", "plain", "tls", "starttls"}[rng.Intn(4)], rng.Intn(1<<30), hold, upanic, uhold, uctl), Kind: "unbind"})
 	}
 	return cs
 }
@@ -547,6 +560,7 @@ func (c10Stream) Impl(c Case) string {
 	rc := &recorder{}
 	released := make(chan struct{})
 	var unbinds int32
+	var unbindReturned int32
 	var umu sync.Mutex
 	h := func(w *gldap.ResponseWriter, r *gldap.Request) {
 		rc.enter(r)
@@ -565,9 +579,18 @@ func (c10Stream) Impl(c Case) string {
 			if p["upanic"] == "1" {
 				panic("unbind handler panic injected by the harness")
 			}
+			if d := atoi(p["uhold"]); d > 0 {
+				time.Sleep(time.Duration(d) * time.Millisecond)
+			}
+			atomic.StoreInt32(&unbindReturned, 1)
 		}
 	}
-	sut, err := startServer(allRoutes(h, startTLSHandler(srvTLS, 0, 0), uh), serverTLSFor(mode), nil)
+	var earlyClose int32
+	sut, err := startServer(allRoutes(h, startTLSHandler(srvTLS, 0, 0), uh), serverTLSFor(mode), func(int) {
+		if p["route"] == "1" && p["upanic"] != "1" && atomic.LoadInt32(&unbindReturned) == 0 {
+			atomic.StoreInt32(&earlyClose, 1)
+		}
+	})
 	if err != nil {
 		return "harness-error start: " + err.Error()
 	}
@@ -581,7 +604,12 @@ func (c10Stream) Impl(c Case) string {
 	for j := 0; j < pre; j++ {
 		buf = append(buf, opFrame(opKinds[rng.Intn(len(opKinds))], int64(100+j))...)
 	}
-	buf = append(buf, Seq(Int(2, 500), P(1, 2, nil)).Ser()...)
+	if p["uctl"] == "1" {
+		// an Unbind may carry controls like any other LDAPMessage (RFC 4511 4.1.1)
+		buf = append(buf, Seq(Int(2, 500), P(1, 2, nil), C(2, 0, Ctl{Kind: "dsait"}.Node())).Ser()...)
+	} else {
+		buf = append(buf, Seq(Int(2, 500), P(1, 2, nil)).Ser()...)
+	}
 	for j := 0; j < post; j++ {
 		buf = append(buf, opFrame(opKinds[rng.Intn(len(opKinds))], int64(900+j))...)
 	}
@@ -647,6 +675,10 @@ func (c10Stream) Impl(c Case) string {
 			verdict = fmt.Sprintf("unbind handler ran %d times, want %d", unbinds, want)
 		}
 		umu.Unlock()
+	}
+	sut.tr.Wait("conn.gone", conn, -1, 5*time.Second)
+	if verdict == "ok" && atomic.LoadInt32(&earlyClose) == 1 {
+		verdict = "socket closed and OnClose called while the unbind handler is still running"
 	}
 	sut.tr.Wait("conn.gone", conn, -1, 5*time.Second)
 	cl.close()
